@@ -378,6 +378,24 @@ pub fn beyond_small_scope() -> Vec<String> {
             }
         }
     }
+    // (b2) wide rows with a C, an X, a Z or a bits entry at columns around 64
+    for n in [64usize, 65, 66, 70, 130] {
+        let header: Vec<String> = (0..n).map(|i| format!("S{i}")).collect();
+        for j in [0usize, 1, 62, 63, 64, 65, n - 1] {
+            if j >= n {
+                continue;
+            }
+            for what in ["C", "X", "Z", "c", "(1)"] {
+                let row: Vec<&str> = (0..n).map(|i| if i == j { what } else { "0" }).collect();
+                out.push(format!("{}\n{}\n{}\n", header.join(" "), row.join(" "), row.join(" ")));
+            }
+        }
+        if n > 64 {
+            let rest = vec!["C"; n - 64].join(" ");
+            out.push(format!("{}\nbits(64, 5) {rest}\n", header.join(" ")));
+            out.push(format!("{}\nbits(63, 5) C {}\n", header.join(" "), vec!["1"; n - 64].join(" ")));
+        }
+    }
     // (c) chains through all eight precedence levels, loosest first and tightest first
     let levels: [&[&str]; 8] = [&["=", "!="], &["<", ">", "<=", ">="], &["|"], &["^"], &["&"], &["<<", ">>"], &["+", "-"], &["*", "/", "%"]];
     let mut picks: Vec<Vec<&str>> = vec![vec![]];
